@@ -177,7 +177,7 @@ theorem stepAdn_mono (o : Opts) (pol : Pol) (m : Mach) (inp e : Str)
 /-- **`step` is monotone in the unread input**: a step that completes (does not ask for more
 input) gives the same result, with the extra input left over, when more input is appended -/
 theorem step_mono (o : Opts) (pol : Pol) (m : Mach) (inp e : Str)
-    (hg : EatOk m) (hat : m.atEof = false)
+    (hg : (m.state = .markupDeclarationOpen ∨ m.state = .afterDoctypeName) → EatOk m) (hat : m.atEof = false)
     (h : (step o pol m inp).isSuspend = false) :
     step o pol m (inp ++ e) = (step o pol m inp).ext e := by
   unfold step at h ⊢
@@ -213,8 +213,16 @@ theorem step_mono (o : Opts) (pol : Pol) (m : Mach) (inp e : Str)
         | none => simp [hgc, R.isSuspend] at h
         | some c => rw [readData_mono o m m1 c inp i1 e hgc]; simp [ofSig_ext]
     | peekBav => simp only [hrk] at h ⊢; exact stepBav_mono o pol m inp e h
-    | eatMdo => simp only [hrk] at h ⊢; exact stepMdo_mono o pol m inp e hg hat h
-    | eatAdn => simp only [hrk] at h ⊢; exact stepAdn_mono o pol m inp e hg hat h
+    | eatMdo =>
+      simp only [hrk] at h ⊢
+      have hs : m.state = .markupDeclarationOpen := by
+        cases hst : m.state <;> simp [hst, readKind] at hrk ⊢
+      exact stepMdo_mono o pol m inp e (hg (Or.inl hs)) hat h
+    | eatAdn =>
+      simp only [hrk] at h ⊢
+      have hs : m.state = .afterDoctypeName := by
+        cases hst : m.state <;> simp [hst, readKind] at hrk ⊢
+      exact stepAdn_mono o pol m inp e (hg (Or.inr hs)) hat h
 
 /-! ### simulation up to a dead `current_char`
 
